@@ -1,5 +1,6 @@
 """C18 — API authorization: permission and its filter are enforced on every access path.  DESIGN.md §2 C18."""
 import glob
+import importlib.util
 import json
 import os
 
@@ -11,7 +12,8 @@ class C18(Check):
     prop = "C18"
     required_theorems = ["wildcard_match_spec", "permission_match_spec", "targets_subset_allowed",
                          "no_permission_rejects_first", "forbidden_by_name_is_error",
-                         "forbidden_single_name_is_denied", "joined_access_subset_allowed", "handler_targets_subset_allowed",
+                         "forbidden_single_name_is_denied", "joined_access_subset_allowed", "handler_targets_subset_allowed", "result_independent_of_visit_order",
+                         "handler_permission_table_matches_source",
                          "model_query_meets_spec", "model_access_meets_spec", "model_grant_meets_spec",
                          "converse_fails_by_overrestriction"]
     technique = ("Lean 4 proof (decision logic stated outright: every object returned on every addressing path satisfies Allowed; "
@@ -30,9 +32,9 @@ class C18(Check):
     level_note = ("Trusted: Lean kernel (+ propext, Classical.choice, Quot.sound); the model's correspondence being sampled; harness/driver; the "
                   "harness's own evaluation of the generated filter expressions (truth tables are oracle inputs). Not modelled: the DSL "
                   "evaluating the filters, permission filters that raise errors, HTTP parsing/authentication (ApiUser::GetByAuthHeader/GetByClientCN), "
-                  "handlers other than object query/modify (delete, actions, templates, variables, types, status, console, config, events: "
-                  "their permission strings are used in direct GetFilterTargets calls but the handlers themselves are not dispatched), "
-                  "non-config providers.")
+                  "the create, config, events and debug handlers (their permission strings are in the generated table and used in direct calls, "
+                  "but they are not dispatched); for templates/variables/types/status only grant/refusal is compared (their targets are not "
+                  "config objects); actions other than reschedule-check/remove-acknowledgement are not dispatched.")
     trusted_base = [
         "modelled, not verified: FilterUtility::HasPermission/CheckPermission/GetFilterTargets and EvaluateFilter's null-filter rule; "
         "permission and user filters are abstract predicates whose truth tables are computed by the harness independently of FilterUtility; "
@@ -41,13 +43,35 @@ class C18(Check):
         "language), tied to the C function by exhaustive small and random permission-shaped pattern/text pairs through HasPermission",
     ]
     assumptions = [
+        "evaluating a permission filter on an object depends on that object only - the model's filters are functions Obj -> Bool, while the "
+        "code evaluates them in one ScriptFrame shared by all objects of a request (filterutility.cpp:217-218); the harness computes the "
+        "oracle truth tables object by object with its own evaluator, and the clauses targets_subset_allowed and "
+        "result_independent_of_visit_order on the implementation's results (plural lists in every permutation, shuffled registration "
+        "order, nullable joins command_endpoint/check_period in the filters) are what would expose a dependence on the visit order",
         "the request requires a non-empty permission (an empty required permission is granted by filterutility.cpp:149-150; no handler uses one)",
         "permission strings, patterns and object names are ASCII (String::ToLower/tolower in the C locale)",
-        "permission filters do not raise errors when evaluated (generated permission filters only use obj/host, which exist for hosts and services)",
+        "permission filters do not raise errors when evaluated: generated permission filters only use obj/host and the joins, which exist "
+        "for hosts and services. EXCLUDED BY THIS (open finding candidate F-C18a, reproduced on the unchanged tree with a probe build, "
+        "_work/scratch/c18/probe/p.ops): a permission filter that mentions `service` under a permission that also covers hosts "
+        "(actions/*, two-type QueryDescription) raises on a host in isolation, but in a request that first names an allowed service and "
+        "then enumerates hosts (service=<allowed>&type=Host&filter=true) it is evaluated with the previous object's `service` still bound "
+        "in the shared permission frame and the hosts are returned",
         "the query dictionary is non-null and `hosts`/`services` hold arrays (what HttpUtility::FetchRequestParameters produces)",
     ]
 
     CASES = {"quick": 20000, "thorough": 200000}
+
+    def generate(self):
+        """Regenerate IcingaProofs/Gen/Permissions.lean (the permission checks found under /repo/lib)."""
+        path = os.path.join(core.ROOT, "gen", "c18_permissions.py")
+        spec = importlib.util.spec_from_file_location("c18_permissions", path)
+        mod = importlib.util.module_from_spec(spec)
+        spec.loader.exec_module(mod)
+        try:
+            with core.Lock("lake"):
+                self.permission_table = mod.generate(core.REPO, os.path.join(core.LEAN, "IcingaProofs", "Gen", "Permissions.lean"))
+        except mod.Lost as e:
+            raise core.TieBroken("translator:C18:anchor-lost", str(e))
 
     def _run(self, harness_cmd, driver, save):
         hrc, herr, drc, lines = runner.pipeline(harness_cmd, [driver], save)
@@ -149,13 +173,17 @@ class C18(Check):
         n = 4 if tier == "thorough" else 3
         res.rule = (f"exhaustive: HasPermission on every (pattern, text) with pattern over {{a,B,*,?,\\}} and text over {{a,b,A,*,\\}}, both up to length {n}; "
                     "plus seeded random permission-shaped pairs (wildcard/near-miss/case mutations of the handlers' permission strings). "
-                    "Cases: random inventory (0-4 hosts, services with or without their host, vars bitmask), user with 0-4 entries "
-                    "(patterns derived from the required permission, filters = random DSL lambdas over obj/host vars, names, match()), 4-9 "
+                    "Cases: random inventory in shuffled registration order (0-4 hosts, services with or without their host, vars bitmask, "
+                    "nullable joins command_endpoint/check_period), user with 0-4 entries (patterns derived from the required permission, "
+                    "filters = random DSL lambdas over obj/host vars, names, match(), command_endpoint.name, check_period.name), plural "
+                    "name lists of 2-3 registered objects in every permutation (direct and dispatched), 4-9 "
                     "queries of every shape (single name incl. array form, plural list incl. empty and duplicates, type+filter incl. fast-path "
                     "shapes, filter_vars, non-compiling and error-raising filters, type only, nothing, mixtures, invalid/wrong types, two-type "
                     "action queries), each run with the default provider and with a logging provider, plus a per-object access table, plus 1-3 "
-                    "whole HTTP requests (GET/POST /v1/objects/<type>[/<name>] with URL parameters and JSON body, joins) dispatched through "
-                    "HttpHandler::ProcessRequest to ObjectQueryHandler/ModifyObjectHandler (observed: status, result names, joined hosts). "
+                    "whole HTTP requests (GET/POST/DELETE /v1/objects/<type>[/<name>] with URL parameters and JSON body, joins; POST "
+                    "/v1/actions/reschedule-check|remove-acknowledgement; GET /v1/templates/hosts, /v1/variables, /v1/types, /v1/status/..., "
+                    "POST /v1/console/execute-script) dispatched through HttpHandler::ProcessRequest (observed: status, result names, "
+                    "joined hosts; for the non-object handlers status and result count). "
                     "evaluations = HasPermission + GetFilterTargets + access-table + dispatched-request calls; a case counts as non-trivial when a permission "
                     "filter removed an object from a non-empty result or denied a named object (distinct by hash of the case text, "
                     "counted by the Lean driver)")
